@@ -3,9 +3,12 @@ every call of the same or of a fresh builder.
 
 Correspondence: the whole builder against `EsBuild.build` on sessions of calls (es_common.run_sessions): one
 builder instance translating 1-10 trees in a row, a fresh instance for each tree, the first tree again at the end.
-Oracle (independent of the model, written from the documented table): the multiset of leaf clauses of the
-implementation's JSON equals the clauses predicted from the tree; the JSON is plain data; the three results
-(used instance / fresh instance / repeated call) are equal.
+Oracle (independent of the model AND of the builder, written from the documented table): the multiset of leaf
+clauses of the implementation's JSON equals the clauses predicted from the tree; the JSON is plain data; the three
+results (used instance / fresh instance / repeated call) are equal.  A ~ / ^ is expected on the single leaf below
+it (through parentheses and field wrappers) whether or not a field in between gets a nested clause; the builder
+drops it in that case: known finding F22, recognised by `modifier_over_nested` (the Python mirror of
+EsSpec.modifier_over_nested; the two are compared on every generated case).
 """
 import json
 import re
@@ -111,7 +114,10 @@ class Expect:
         return {method: {f: inner}}
 
     def go(self, n, prefix, analyzed, name):
-        """-> ("leaf", spec) or ("other", [spec...]); name = name of the nearest named enclosing element"""
+        """-> ("leaf", spec): one clause that is a DIRECT item of the enclosing bool clause;
+        ("wrapped", spec): one clause inside a nested clause (a ~ / ^ above still applies to it, the
+        zero_terms_query of an enclosing conjunction does not: it is an item of the nested clause);
+        ("other", [spec...]).  name = name of the nearest named enclosing element"""
         T = self.T
         own = get_name(n)
         here = own if own is not None else name          # the element's own name, else inherited
@@ -146,11 +152,11 @@ class Expect:
             p2 = (prefix or []) + names
             r = self.go(n.expr, p2, ".".join(p2) not in self.na, down)
             if self.nested_path(prefix or [], names) is not None and r[0] == "leaf":
-                return ("other", [r[1]])          # wrapped in a nested clause
+                return ("wrapped", r[1])          # wrapped in a nested clause
             return r
         if type(n) in (T.Boost, T.Fuzzy, T.Proximity):
             r = self.go(n.children[0], prefix, analyzed, down)
-            if r[0] == "leaf":
+            if r[0] in ("leaf", "wrapped"):      # the single clause below, nested or not
                 s = r[1]
                 if type(n) is T.Boost:
                     s["boost"] = float(n.force)
@@ -166,13 +172,15 @@ class Expect:
                 if self.conj(n):
                     r[1]["ztq"] = "all"
                 out.append(r[1])
+            elif r[0] == "wrapped":
+                out.append(r[1])
             else:
                 out += r[1]
         return ("other", out)
 
     def clauses(self, tree):
         r = self.go(tree, None, None, None)
-        specs = [r[1]] if r[0] == "leaf" else r[1]
+        specs = [r[1]] if r[0] in ("leaf", "wrapped") else r[1]
         return [self.clause(s) for s in specs]
 
 
@@ -246,8 +254,102 @@ def f16_regression_corpus(T, parser, set_name):
     return out
 
 
+def nested_parents(cfg):
+    """the parents of the declared nested paths (read from the declaration, not from the builder)"""
+    return set(E.head(p) for p in E.declared_paths(cfg.get("nested_fields"), True))
+
+
+def crosses_nested(parents, pre, names):
+    """EsSpec.crosses_nested: pre + (a non-empty initial part of names) is the parent of a declared nested path"""
+    return any(".".join(pre + names[:k + 1]) in parents for k in range(len(names)))
+
+
+def single_leaf(T, n):
+    """EsSpec.single_leaf: ONE word / phrase / range under parentheses, field wrappers and modifiers"""
+    if type(n) in (T.Word, T.Phrase, T.Range):
+        return True
+    if type(n) in (T.SearchField, T.Group, T.FieldGroup, T.Boost, T.Fuzzy, T.Proximity):
+        return single_leaf(T, n.children[0])
+    return False
+
+
+def chain_crosses(T, parents, pre, n):
+    """EsSpec.chain_crosses: on the way down to the single leaf some search field crosses a nested boundary"""
+    if type(n) is T.SearchField:
+        names = n.name.split(".")
+        return crosses_nested(parents, pre, names) or chain_crosses(T, parents, pre + names, n.children[0])
+    if type(n) in (T.Group, T.FieldGroup, T.Boost, T.Fuzzy, T.Proximity):
+        return chain_crosses(T, parents, pre, n.children[0])
+    return False
+
+
+def modifier_over_nested(T, cfg, tree):
+    """Known finding F22 (executable mirror of EsSpec.modifier_over_nested): somewhere in the tree a ^ / ~ (Boost,
+    Fuzzy, Proximity) stands above a single leaf from which it is separated by a search field that crosses a
+    nested boundary: `(a.b:x)^2`, `(a:(b:x))^2` with a.b nested — not `a.b:x^2`, `a:(b:x)^2`, `a:((b:x)^2)`."""
+    parents = nested_parents(cfg)
+
+    def at(pre, n):
+        k = type(n)
+        if k is T.SearchField:
+            return at(pre + n.name.split("."), n.children[0])
+        if k in (T.Boost, T.Fuzzy, T.Proximity):
+            c = n.children[0]
+            return (single_leaf(T, c) and chain_crosses(T, parents, pre, c)) or at(pre, c)
+        if k is T.Range or isinstance(n, T.Term) or not n.children:
+            return False
+        return any(at(pre, c) for c in n.children)
+    return at([], tree)
+
+
+F22_CONFIG = {"nested_fields": {"a": ["b"]}}
+F22_CONFIG_DEEP = {"nested_fields": {"a": {"b": ["c"]}}, "default_operator": "must"}
+
+
+def f22_corpus(T, parser):
+    """the witnesses of F22 and their neighbours (which spellings lose the modifier, which keep it), replayed on
+    the real code; (configuration, trees)"""
+    W, P, SF, G, FG = T.Word, T.Phrase, T.SearchField, T.Group, T.FieldGroup
+    lost = ['(a.b:x)^2', '(a:(b:x))^2', '(a.b:(x))^2', '((a.b:x)^2)', '((a.b:x)^2)^3', '(a.b:[1 TO 2])^2',
+            '(a.b:x~1)^2', '(a.b:"x y"~2)^3', '(a.b:x)^2 AND c:y', 'NOT (a.b:x)^2', 'c:y OR (a:(b:"p q"))^0.5']
+    kept = ['a.b:x^2', '(c:x)^2', '((c:x))^2', 'a:(b:x)^2', 'a:((b:x)^2)', 'a:(b:x^2)', 'a:(b:(x)^2)', 'a.b:(x)^2',
+            'a.b:(x^2)', 'a.b:[1 TO 2]^2', 'a.b:"x y"~2^3', '(a.b:x^2)', '(a.b:x c:y)^2']
+    hand = [T.Fuzzy(SF("a.b", W("x")), 1), T.Fuzzy(G(SF("a.b", W("x"))), 2),
+            T.Proximity(G(SF("a.b", P('"x y"'))), 1), T.Proximity(SF("a", FG(SF("b", P('"x y"')))), 3),
+            T.Fuzzy(G(SF("c", W("x"))), 1), SF("a", FG(T.Fuzzy(G(SF("b", W("x"))), 1))),
+            T.Boost(G(SF("a.b", T.Boost(W("x"), 2))), 2)]        # the dropped ^2 repeats the leaf's own: nothing lost
+    deep_lost = ['a:(b.c:x)^2', 'a:((b.c:x)^2)', '(a.b.c:x)^2', 'a:(b:(c:x))^2']
+    deep_kept = ['a:(b:(c:x)^2)', 'a.b:(c:x)^2', 'a:(b:((c:x)^2))', 'a.b.c:x^2']
+    return [(F22_CONFIG, [parser.parse(q) for q in lost + kept] + hand),
+            (F22_CONFIG_DEEP, [parser.parse(q) for q in deep_lost + deep_kept]),
+            ({}, [parser.parse(q) for q in lost[:4] + kept[:4]])]
+
+
+def grammar_like(T, t):
+    """E.supported(strict=True), except that a ~ may also stand above parentheses / field wrappers around its word
+    (Fuzzy) or phrase (Proximity): the hand-built shapes of F22 (observation F19 of C05) are judged too"""
+    def chain(n, leaf):
+        while type(n) in (T.Group, T.FieldGroup, T.SearchField):
+            n = n.children[0]
+        return type(n) is leaf
+    k = type(t)
+    if k in (T.Word, T.Phrase):
+        return True
+    if k in (T.SearchField, T.Group, T.FieldGroup, T.Boost, T.Plus, T.Not, T.Prohibit):
+        return grammar_like(T, t.children[0])
+    if k is T.Fuzzy:
+        return chain(t.term, T.Word)
+    if k is T.Proximity:
+        return chain(t.term, T.Phrase)
+    if k is T.Range:
+        return E.supported(T, t, strict=True)
+    if k in (T.AndOperation, T.OrOperation, T.UnknownOperation, T.BoolOperation):
+        return len(t.children) >= 2 and all(grammar_like(T, c) for c in t.children)
+    return False
+
+
 def judged(T, cfg, tree):
-    if not E.supported(T, tree, strict=True):
+    if not grammar_like(T, tree):
         return False
     for _, n in gentree.all_nodes(tree):
         if isinstance(n, T.Term) and "\\\\\\" in n.value:
@@ -270,15 +372,19 @@ def correspond(model_ok, res):
     f16 = f16_regression_corpus(T, parser, set_name)
     hist = [parser.parse(q) for q in ['"a b"~2', 'f:[1 TO 5]', 'x', '"c d"', 'f:{2 TO *]', '"e f"~3', 'y AND "g h"',
                                       'f:[* TO 3}', 'z OR "i j"~1', 'x']]
-    sessions = [({}, f16[:10], "F16-regression"), ({"default_operator": "must"}, f16[10:] + f16[:2], "F16-regression"),
+    f22 = [(c, ts, "F22-witnesses") for c, ts in f22_corpus(T, parser)]
+    sessions = f22 + [({}, f16[:10], "F16-regression"), ({"default_operator": "must"}, f16[10:] + f16[:2], "F16-regression"),
                 ({"nested_fields": {"f": ["g"]}, "not_analyzed_fields": ["f.g"]}, f16[5:], "F16-regression"),
                 ({}, hist, "history"),
                 ({"not_analyzed_fields": ["text", "f"]}, hist, "history")] + E.builder_sessions(r, T, n)
     # texts with escaped quotes / backslashes / specials at their ends; homonymous fields under different
     # parents with different analysed-ness, one builder reused in both orders
     sessions += E.escaped_sessions(r, T, n // 4) + E.homonym_sessions(r, T, n // 2)
-    stats = {"judged": 0, "leaf_clauses": 0, "named_same_class_operand": 0, "kinds": {}, "spec_cases": 0}
-    spec_cases, spec_payloads = [], []
+    stats = {"judged": 0, "leaf_clauses": 0, "named_same_class_operand": 0, "kinds": {}, "spec_cases": 0,
+             "modifier_over_nested": 0, "modifier_over_nested_judged": 0, "F22_oracle_failures": 0,
+             "F22_spec_failures": 0, "modifier_over_nested_but_clauses_as_expected": 0, "predicate_cases": 0}
+    spec_cases, spec_payloads, spec_f22 = [], [], []
+    pred_cases, pred_payloads = [], []
 
     def oracle(cfg, tree, outcome, info):
         out = []
@@ -286,6 +392,14 @@ def correspond(model_ok, res):
                    "query": str(tree)[:400],
                    # the calls the same builder instance made before this one (replayable history)
                    "earlier_calls_on_this_builder": [str(t)[:300] for t in sessions[info["session"]][1][:info["call"]]]}
+        # F22's recogniser, evaluated on EVERY generated case and compared with the Coq predicate below
+        in_f22 = modifier_over_nested(T, cfg, tree)
+        stats["modifier_over_nested"] += in_f22
+        try:
+            pred_cases.append("(%s, %s, %s)" % (E.g_config(cfg), lib.g_item(tree), lib.g_bool(in_f22)))
+            pred_payloads.append(payload)
+        except lib.Unmodelled:
+            pass
         # identical on every call of the same or of a fresh builder
         if outcome != info["fresh"]:
             out.append((dict(payload, why="used and fresh builder differ", fresh=repr(info["fresh"])[:400]), None))
@@ -298,6 +412,7 @@ def correspond(model_ok, res):
         if not judged(T, cfg, tree):
             return out
         stats["judged"] += 1
+        stats["modifier_over_nested_judged"] += in_f22
         want = sorted(canon(c) for c in Expect(T, cfg).clauses(tree))
         got = sorted(canon(c) for c in json_leaves(outcome[1]))
         stats["leaf_clauses"] += len(got)
@@ -313,12 +428,18 @@ def correspond(model_ok, res):
                 E.g_config(cfg), lib.g_item(tree),
                 lib.g_list([E.g_json(c, E.decimals_of(T, tree)) for c in json_leaves(outcome[1])])))
             spec_payloads.append(payload)
+            spec_f22.append(in_f22)
         except lib.Unmodelled:
             pass
         if want != got:
-            # no known finding of C06 is left: every failure of the oracle is a violation
+            # the only known finding of C06: a ~ / ^ above a field that gets a nested clause (F22); every other
+            # failure of the oracle is a violation
+            fid = "F22" if in_f22 else None
+            stats["F22_oracle_failures"] += in_f22
             out.append((dict(payload, why="leaf clauses differ from the predicted ones",
-                             expected=want[:20], got=got[:20]), None))
+                             expected=want[:20], got=got[:20]), fid))
+        elif in_f22:
+            stats["modifier_over_nested_but_clauses_as_expected"] += 1
         return out
 
     E.run_sessions("C06", res, model_ok, sessions, T, oracle)
@@ -341,12 +462,39 @@ Definition chk2 (c : es_config * item * list json) : bool :=
             res.model_error = str(e)[-3000:]
             bad = []
         for i in bad:
-            res.disagreements.append(dict(spec_payloads[i], why="EsSpec.expected_clauses differs from the "
-                                          "implementation's leaf clauses"))
+            if spec_f22[i]:
+                # the Coq specification is violated by the implementation on an input of F22's class
+                stats["F22_spec_failures"] += 1
+                res.failures.append((dict(spec_payloads[i], why="EsSpec.expected_clauses differs from the "
+                                          "implementation's leaf clauses (modifier above a nested field)"), "F22"))
+            else:
+                res.disagreements.append(dict(spec_payloads[i], why="EsSpec.expected_clauses differs from the "
+                                              "implementation's leaf clauses"))
         stats["spec_cases"] = len(spec_cases)
         res.cases += len(spec_cases)
+    if model_ok and pred_cases and not res.model_error:
+        # the Python recogniser of F22 == EsSpec.modifier_over_nested on every generated case (+ a canary: a
+        # deliberately wrong verdict on the witness must be reported)
+        defs3 = """Definition chk3 (c : es_config * item * bool) : bool :=
+  let '(cfg, t, b) := c in Bool.eqb (modifier_over_nested cfg t) b."""
+        canary = "(%s, %s, false)" % (E.g_config(F22_CONFIG), lib.g_item(parser.parse("(a.b:x)^2")))
+        try:
+            bad3 = lib.eval_cases("C06p", E.IMPORTS + " EsSpec", defs3, pred_cases + [canary], "chk3", shard=60)
+        except Exception as e:  # noqa
+            res.model_error = str(e)[-3000:]
+            bad3 = [len(pred_cases)]
+        if len(pred_cases) not in bad3:
+            res.model_error = "canary of the F22 predicate comparison not reported: the comparison is vacuous"
+        for i in bad3:
+            if i < len(pred_cases):
+                res.disagreements.append(dict(pred_payloads[i], why="harness modifier_over_nested differs from "
+                                              "EsSpec.modifier_over_nested"))
+        stats["predicate_cases"] = len(pred_cases)
+        res.cases += len(pred_cases)
     res.rule = ("sessions of 1-10 calls on one builder instance (each also on a fresh instance, first tree "
-                "repeated at the end): the regression corpus of the repaired F16 (named operations / + nested "
+                "repeated at the end): the witnesses of F22 and their neighbours (a ^ / ~ above, between and below "
+                "the field that gets a nested clause, parsed and hand-built, two nesting depths, and without any "
+                "nested field); the regression corpus of the repaired F16 (named operations / + nested "
                 "directly in an operation of their own class, at several depths, with '' as a name, under fields "
                 "and groups, under three configurations); fixed histories interleaving phrases with slop, ranges of different "
                 "shapes and words; parsed corpus x fixed configurations; random supported trees, supported trees "
@@ -364,18 +512,23 @@ SPEC = {
     "targets": ["props/C06.vo"],
     "model_targets": ["model/EsBuild.vo", "model/EsSpec.vo"],
     "module": "C06",
-    "theorems": ["C06_leaves", "C06_eleaves", "C06_leaf_names", "C06_leaves_partial", "C06_eleaves_partial",
+    "theorems": ["C06_leaves_partial", "C06_eleaves_partial", "C06_leaves_refuted_F22", "C06_eleaves_refuted_F22",
+                 "C06_modifier_guard_needed", "C06_leaf_names",
                  "C06_plain_json", "C06_calls_independent", "C06_class_defaults_untouched",
-                 "C06_tie_e_consts_immutable", "C06_tie_builder_eclasses_standard", "C06_tie_methods_known"],
+                 "C06_tie_e_consts_immutable", "C06_tie_builder_eclasses_standard", "C06_tie_methods_known",
+                 "C06_tie_ztq"],
     "correspond": correspond,
     "statement": "multiset of the leaf clauses of the generated query = clauses of the leaves expected from the "
-                 "tree (field, value, kind, modifiers, options, zero_terms_query, _name): proved in full for every "
-                 "supported tree (C06_leaves; in document order on the E-tree: C06_eleaves; the names alone against "
-                 "'own name, else nearest named enclosing element': C06_leaf_names) since the repair of F16 "
-                 "(simplify_if_same keeps a same-class operand that has a name); the guarded theorems of earlier "
-                 "rounds are corollaries and the former witnesses are regression examples; every produced JSON is "
-                 "plain data (proved in full); results independent of earlier calls (pure model + generated "
-                 "immutability facts + call-sequence correspondence)",
+                 "tree (field, value, kind, modifiers, options, zero_terms_query, _name), the expectation being "
+                 "computed on the tree and the declared paths alone (a ~ / ^ applies to the single leaf below it "
+                 "through parentheses and field wrappers): REFUTED without guard (C06_leaves_refuted_F22, "
+                 "C06_eleaves_refuted_F22: `(a.b:x)^2` with a.b nested loses its boost), PROVED for every supported "
+                 "tree under the executable guard modifier_over_nested cfg t = false (C06_leaves_partial; in "
+                 "document order on the E-tree: C06_eleaves_partial; the guard is needed: "
+                 "C06_modifier_guard_needed); the names alone against 'own name, else nearest named enclosing "
+                 "element' in full (C06_leaf_names); every produced JSON is plain data (proved in full); results "
+                 "independent of earlier calls (pure model + generated immutability facts + call-sequence "
+                 "correspondence); the zero_terms_query constants are pinned by C06_tie_ztq",
     "trusted_base": [
         "Coq 8.16.1 kernel (vm_compute for witnesses and correspondence; no native_compute)",
         "no axioms (Print Assumptions: closed under the global context)",
@@ -396,6 +549,11 @@ SPEC = {
         "history clause: the model is a pure function of (configuration, tree); what ties this to the code is the "
         "call-sequence correspondence and the (hard-coded) fact that the class-level defaults are tuples / str",
         "range bounds keep the bound's text as it is (a phrase bound keeps its quotes); a boost / fuzziness / "
-        "proximity around something that is not a single leaf clause is ignored by the builder (observations)",
+        "proximity around something that is not a single leaf clause (an operation, a negation) is ignored by the "
+        "builder (observations); around a single leaf it is expected on that leaf, nested or not (F22 when the "
+        "builder drops it)",
+        "a clause inside a nested clause is an item of the nested clause: the zero_terms_query 'all' of an "
+        "enclosing conjunction is not expected on it (which fields get a nested clause is read from the declared "
+        "paths: the parents of the declared nested paths)",
     ],
 }
